@@ -762,11 +762,11 @@ def shard(idx: int, seed: int, n_meta: int, out_every: int, n_proc: int, n_stamp
 
 def run(ctx: RunContext) -> int:
     t0 = time.time()
-    n_meta = ctx.scale(50, 1500)
+    n_meta = ctx.scale(40, 1500)
     q = ctx.quick
     # subprocess cases (two fresh interpreters per batch; a fresh interpreter per generated module) are kept to a handful in quick
     res = run_shards(shard, [(i, derive_seed(ctx.seed, i), n_meta, 6 if q else 3, (3 if i % 4 == 1 else 0) if q else ctx.scale(3, 20),
-                              (1 if i % 4 >= 2 else 0) if q else ctx.scale(2, 12), (not q) and i < 4, ctx.scale(150, 5000)) for i in range(16)])
+                              (1 if i % 4 >= 2 else 0) if q else ctx.scale(2, 12), (not q) and i < 4, ctx.scale(100, 5000)) for i in range(16)])
     return conclude(ctx, res, RULE, ASSUME, t0)
 
 
